@@ -119,6 +119,10 @@ func VerifC19_TrackMerge() {
 	for _, l := range before {
 		text += l + eol
 	}
+	if text != "" && verifChoose("last.line.unterminated", 2) == 1 {
+		// a file whose last line has no line ending (written by hand)
+		text = strings.TrimSuffix(text, eol)
+	}
 	if text != "" {
 		verifFSWrite(attrPath, text, 0644)
 	}
